@@ -83,6 +83,9 @@ class WingSegment:
             # Get CAD options
             self._cad_options = self._input_dict.get("CAD_options", {})
 
+        else: # The origin segment has no y-offset
+            self.y_offset = 0.0
+
 
     def _initialize_params(self):
 
